@@ -23,8 +23,8 @@ LANES = ["cfg", "doc", "prog", "fault", "io", "sched"]
 PROPS = {
     "C01": dict(flavours=["asan"], quick=400000, thorough=12000000, chunk=5000, level="exploration"),
     "C02": dict(flavours=["asan"], quick=400000, thorough=12000000, chunk=5000, level="exploration"),
-    "C03": dict(flavours=["asan"], quick=40000, thorough=1500000, chunk=1000, level="exploration"),
-    "C05": dict(flavours=["asan"], quick=40000, thorough=1500000, chunk=1000, level="exploration"),
+    "C03": dict(flavours=["asan"], quick=300000, thorough=9000000, chunk=4000, level="exploration"),
+    "C05": dict(flavours=["asan"], quick=400000, thorough=12000000, chunk=5000, level="exploration"),
     "C10": dict(flavours=["asan"], quick=300000, thorough=8000000, chunk=4000, level="exploration"),
     "C13": dict(flavours=["asan"], quick=60000, thorough=2500000, chunk=1500, level="exploration"),
     "C18": dict(flavours=["asan"], quick=12000, thorough=400000, chunk=300, level="exploration"),
